@@ -117,6 +117,45 @@ def check_parsers(mode: str, pr: refenc.Produced, entries=None):
     return None
 
 
+def check_interleaved(mode: str, pr: refenc.Produced):
+    """Two lazy flat parsers over the SAME valid bytes (hence identical options), the second started later and both
+    stepped alternately: each must still return exactly the intended events."""
+    import io
+    from pyjelly.integrations.generic import parse as gparse
+    from pyjelly.integrations.rdflib import parse as rparse
+
+    want = _expect(pr.events)
+    for integ in (["generic"] if mode == "generic" else ["generic", "rdflib"]):
+        mod = gparse if integ == "generic" else rparse
+        conv = T.event_from_generic if integ == "generic" else T.event_from_rdflib
+        a = mod.parse_jelly_flat(io.BytesIO(pr.data))
+        b = mod.parse_jelly_flat(io.BytesIO(pr.data))
+        out_a, out_b = [], []
+        try:
+            lag = max(1, len(want) // 3)
+            for _ in range(lag):
+                x = next(a, None)
+                if x is not None:
+                    out_a.append(conv(x))
+            live = [(a, out_a), (b, out_b)]
+            while live:
+                for it, out in list(live):
+                    x = next(it, None)
+                    if x is None:
+                        live.remove((it, out))
+                    else:
+                        out.append(conv(x))
+        except Exception as e:  # noqa: BLE001
+            return {"clause": "parser-raised", "entry": f"{integ}:flat (two parsers stepped alternately)",
+                    "summary": f"{integ}: two lazy parsers over the same valid stream, stepped alternately: {type(e).__name__}: {e}"}
+        for name, out in (("first", out_a), ("second", out_b)):
+            if T.norm_events(out) != want:
+                return {"clause": "events-differ", "entry": f"{integ}:flat (two parsers stepped alternately)",
+                        "summary": f"{integ}: the {name} of two alternately stepped parsers over the same valid stream returned "
+                                   f"{len(out)} events that differ from the {len(want)} intended ones"}
+    return None
+
+
 def _diff(integ, entry, got, want, how="seq"):
     i = next((k for k, (a, b) in enumerate(zip(got, want)) if a != b), min(len(got), len(want)))
     return {"clause": "events-differ", "entry": f"{integ}:{entry}", "got_at": T.to_json(got[i]) if i < len(got) else None,
@@ -142,6 +181,9 @@ def run_shard(ctx):
             ctx.observe("producer-declined (tables too small for a row under the chosen split)")
             continue
         w = check_parsers(mode, pr)
+        if w is None and i % 3 == 0:
+            w = check_interleaved(mode, pr)
+            ctx.observe("interleaved-parser-pairs")
         ctx.observe("streams-parsed")
         for integ in (["generic"] if mode == "generic" else ["generic", "rdflib"]):
             for e in ("flat", "grouped", "to_graph"):
@@ -172,7 +214,7 @@ def replay(w: dict):
     res = refdec.decode(wire.dec_stream(data, w["delimited"]))
     if res.violation is not None or T.norm_events(res.events) != T.norm_events(events):
         raise RuntimeError("replay file is not a valid stream for the reference decoder")
-    return check_parsers(w["mode"], pr)
+    return check_parsers(w["mode"], pr) or check_interleaved(w["mode"], pr)
 
 
 def classify(w: dict):
